@@ -627,6 +627,30 @@ def fam_basic(rng):
     return [['FiveQubitCode', []], ['SteaneCode', []]], [['NaiveDecoder', {}]], None
 
 
+def fam_basic_siblings(rng):
+    """USER-DEFINED codes (BasicCode) that are SIBLINGS: equal in every constructor argument but one (another valid choice
+    of logical Z, of logical X, of the stabilizer generators, another label, another n_k_d) - objects whose cached
+    matrices must not be shared although almost everything about them is equal; used interleaved in one history"""
+    s5 = ['XZZXI', 'IXZZX', 'XIXZZ', 'ZXIXZ']
+    s5b = ['XZZXI', 'IXZZX', 'XIXZZ', 'YYZIZ']         # the same group, last generator times the first (XZZXI * ZXIXZ)
+    s7 = ['IIIXXXX', 'IXXIIXX', 'XIXIXIX', 'IIIZZZZ', 'IZZIIZZ', 'ZIZIZIZ']
+    base5 = [s5, ['XXXXX'], ['ZZZZZ'], [5, 1, 3], '5-qubit']
+    sib5 = [[s5, ['XXXXX'], ['YYYYY'], [5, 1, 3], '5-qubit'],
+            [s5, ['YYYYY'], ['ZZZZZ'], [5, 1, 3], '5-qubit'],
+            [s5b, ['XXXXX'], ['ZZZZZ'], [5, 1, 3], '5-qubit'],
+            [s5, ['XXXXX'], ['ZZZZZ'], [5, 1, 3], 'five'],
+            [s5, ['XXXXX'], ['ZZZZZ'], [5, 1, None], '5-qubit']]
+    base7 = [s7, ['XXXXXXX'], ['ZZZZZZZ'], [7, 1, 3], 'Steane']
+    sib7 = [[s7, ['XXXXXXX'], ['YYYYYYY'], [7, 1, 3], 'Steane'], [s7, ['YYYYYYY'], ['ZZZZZZZ'], [7, 1, 3], 'Steane'],
+            [s7, ['XXXXXXX'], ['ZZZZZZZ'], [7, 1, 3], 'steane']]
+    if rng.random() < 0.6:
+        chosen = [base5] + rng.sample(sib5, rng.choice([1, 2, 3]))
+    else:
+        chosen = [base7] + rng.sample(sib7, rng.choice([1, 2]))
+    rng.shuffle(chosen)
+    return [['BasicCode', c] for c in chosen], [['NaiveDecoder', {}]], None
+
+
 TN_MODES = 'cra'
 
 
@@ -652,7 +676,7 @@ def fam_rplanar_even(rng):
 
 
 FAMS = [fam_planar, fam_planar, fam_planar_small, fam_planar_y, fam_toric, fam_rplanar, fam_rplanar, fam_rplanar_big, fam_rtoric, fam_color,
-        fam_basic, fam_planar_even, fam_planar_even, fam_rplanar_even]
+        fam_basic, fam_basic_siblings, fam_basic_siblings, fam_planar_even, fam_planar_even, fam_rplanar_even]
 
 # USER SUBCLASSES (c06_exec.subclass): a trivial subclass, the X/Z-swapped logical labelling, logicals times a stabilizer
 CODE_VARIANTS = ['plain', 'swap', 'swap', 'stab']
